@@ -205,7 +205,7 @@ theorem stepOK_read (w : World) (hw : WFW w) (h : Nat) (n : Int) : StepOK w (.re
         have hdo : (ddOff ((w.file a.file).dd a.slot)).toNat = o := by simp [ddOff, hx]
         have hstep : step w (.read h n) =
             let len : Int := if n = 0 ∨ n + a.posn > l then (l : Int) - a.posn else n
-            if len < 0 then (if w.cfg.fixed then (w, .data 0 []) else (w, .fail))
+            if len < 0 then (w, .data 0 [])
             else match diskRead (w.file a.file).disk (o + a.posn) len.toNat with
               | none => (w, .fail)
               | some bs => (w.setAcc h { a with posn := a.posn + len.toNat }, .data len bs) := by
@@ -216,23 +216,22 @@ theorem stepOK_read (w : World) (hw : WFW w) (h : Nat) (n : Int) : StepOK w (.re
           · rfl
           · cases diskRead (w.file a.file).disk (o + a.posn) (if n = 0 ∨ n + (a.posn : Int) > l then (l : Int) - a.posn else n).toNat <;> rfl
         by_cases hlen : (if n = 0 ∨ n + a.posn > l then (l : Int) - a.posn else n) < 0
-        · by_cases hfx : w.cfg.fixed = true
-          · unfold StepOK
-            rw [hstep]; simp only [hlen, if_true, hfx]
-            have hrc : readCount l a.posn n.toNat = 0 := by
-              unfold readCount
-              have : a.posn ≥ l := by split at hlen <;> omega
-              simp [this]
-            refine ⟨hw, (abs w).setHnd h (some { file := a.file, key := (w.file a.file).keyOf a.slot, pos := a.posn + 0 }), ?_, ?_⟩
-            · simp only [specStep, abs_hnd, ha, Option.map_some, he, slotBytes_plain _ _ hsp', hx, bytesAt_length, hrc]
-              simp [hn0, specRead]
-            · refine ⟨fun _ => rfl, fun _ _ _ => rfl, ?_⟩
-              intro h'
-              simp only [View.setHnd, abs_hnd]
-              by_cases e : h' = h
-              · simp [e, ha]
-              · simp [e]
-          · exact stepOK_fail_same w hw _ (by rw [hstep]; simp only [hlen, if_true]; simp [hfx])
+        · -- positioned beyond the end: 0 bytes (21b8ab5)
+          unfold StepOK
+          rw [hstep]; simp only [hlen, if_true]
+          have hrc : readCount l a.posn n.toNat = 0 := by
+            unfold readCount
+            have : a.posn ≥ l := by split at hlen <;> omega
+            simp [this]
+          refine ⟨hw, (abs w).setHnd h (some { file := a.file, key := (w.file a.file).keyOf a.slot, pos := a.posn + 0 }), ?_, ?_⟩
+          · simp only [specStep, abs_hnd, ha, Option.map_some, he, slotBytes_plain _ _ hsp', hx, bytesAt_length, hrc]
+            simp [hn0, specRead]
+          · refine ⟨fun _ => rfl, fun _ _ _ => rfl, ?_⟩
+            intro h'
+            simp only [View.setHnd, abs_hnd]
+            by_cases e : h' = h
+            · simp [e, ha]
+            · simp [e]
         · have hlen' : ¬ ((if n = 0 ∨ n + (a.posn : Int) > l then (l : Int) - a.posn else n) < 0) := hlen
           have hrc : (if n = 0 ∨ n + (a.posn : Int) > l then (l : Int) - a.posn else n).toNat = readCount l a.posn n.toNat ∧
               a.posn + readCount l a.posn n.toNat ≤ l := by
